@@ -59,9 +59,10 @@ def main():
                 if (V / "evidence" / f"{p}.json").exists():
                     gen[V / "evidence" / f"{p}.json"] = (V / "evidence" / f"{p}.json").read_text()
                 rcc, oc = sh(f"./check {p} --tier {tier}", cwd=V, env=dict(os.environ, TT_REPO=str(wt)))
-                lines = [l for l in oc.splitlines() if l.startswith(("VIOLATION", "KNOWN-FINDING", "#", p + " tier", "INFRA"))]
+                alll = [l for l in oc.splitlines() if l.startswith(("VIOLATION", "KNOWN-FINDING", "#", p + " tier", "INFRA"))]
+                lines = [l[:500] for l in alll if not l.startswith("KNOWN-FINDING")] + [f"({sum(l.startswith('KNOWN-FINDING') for l in alll)} KNOWN-FINDING lines)"]
                 res["checks"][p] = {"exit": rcc, "detected": rcc == 1 and any(l.startswith("VIOLATION") for l in lines),
-                                    "lines": lines[:8], "wall_s": round(time.time() - t0, 1)}
+                                    "lines": lines[:12], "wall_s": round(time.time() - t0, 1)}
                 for f, txt in gen.items():
                     if f.read_text() != txt:
                         f.write_text(txt)
